@@ -44,12 +44,16 @@ def determinism(props, n_runs):
         hs_differs = sum(1 for i in da if i in dc and da[i]['hashseed'] != dc[i]['hashseed'])
         phys_differs_under_other_hs = sum(1 for i in da if i in dc and da[i]['digest'] != dc[i]['digest'])
         errs = ea + eb + ec
-        status = 'ok' if not (phys or logi or errs) and len(da) == len(db) == len(dc) == n_runs else 'FAIL'
+        # judged: the physical digest at 16 vs 3 workers (same hash seed).  The
+        # comparison under another hash seed is a reach measure of seam S3, not
+        # a requirement (generation is lazy and sifting order legitimately
+        # depends on the hash seed; DESIGN section 7)
+        status = 'ok' if not (phys or errs) and len(da) == len(db) == len(dc) == n_runs else 'FAIL'
         if status != 'ok':
             bad += 1
         print(f'determinism {prop}: runs={n_runs} physical_mismatch(16 vs 3 workers)={phys} '
-              f'logical_mismatch(other PYTHONHASHSEED)={logi} runs_under_other_hashseed={hs_differs} '
-              f'(of which physically different: {phys_differs_under_other_hs}) harness_errors={len(errs)} {status}')
+              f'[not judged: under another PYTHONHASHSEED {hs_differs} runs, logical digest differs in {logi}, '
+              f'physical in {phys_differs_under_other_hs}] harness_errors={len(errs)} {status}')
         for e in errs[:3]:
             print('   ', e[:300])
     return bad
